@@ -597,7 +597,31 @@ class Interp:
         raise Unsupported("raise of non-exception")
 
     def exec_For(self, st):
-        items = self.B.iterate(self, self.eval(st.iter))
+        it = self.eval(st.iter)
+        nxt = getattr(it, "__vf_next__", None)
+        if nxt is not None:
+            # a LAZY iterator supplied by a contract harness (e.g. a generator that reads state the loop body updates): one item per
+            # iteration, computed when the iteration starts
+            n, broke = 0, False
+            while True:
+                has, x = nxt(self)
+                if not has:
+                    break
+                n += 1
+                if n > self.MAX_UNROLL:
+                    raise Unsupported("loop too long to unroll")
+                self.assign(st.target, x)
+                try:
+                    self.exec_block(st.body)
+                except BreakEx:
+                    broke = True
+                    break
+                except ContinueEx:
+                    continue
+            if not broke:
+                self.exec_block(st.orelse)
+            return
+        items = self.B.iterate(self, it)
         if len(items) > self.MAX_UNROLL:
             raise Unsupported("loop too long to unroll")
         broke = False
